@@ -367,11 +367,12 @@ def read_import(file, *targets):
     raise RuntimeError('Module: {0} not found'.format(name))
   module = types.ModuleType(name)
   module.__file__ = path
-  sys.path.insert(0, os.path.abspath(_dir)) # for imports made by the file
+  _dir = os.path.abspath(_dir)
+  sys.path.insert(0, _dir) # for imports made by the file
   try:
     exec(compile(code, path, 'exec'), module.__dict__)
-  finally:
-    sys.path.pop(0)
+  finally: # (the file may have changed sys.path itself)
+    if _dir in sys.path: sys.path.remove(_dir)
   if not len(targets): return module
   results = [getattr(module, target, None) for target in targets]
   return results[-1] if (len(results) == 1) else results
